@@ -18,6 +18,9 @@ def draw(rng, maxsites=6, sigmas=(0.3, 1., 3.), maxjumps=300, hostile=False, nee
     jn = crys.jumpnetwork(chem, cutoff)
     if len(jn) == 0 or sum(len(j) for j in jn) > maxjumps: return None
     sl = crys.sitelist(chem)
+    if len(sl) > 1 and rng.uniform() < 0.5:
+        # a user-built site list: Wyckoff sets in any order, sites in any order within a set
+        sl = [[int(i) for i in rng.permutation(sl[k])] for k in rng.permutation(len(sl))]
     inv = gen.invmap(sl, N)
     sigma = float(rng.choice(sigmas))
     pre, bE, preT, bET = gen.rand_thermo_interstitial(rng, len(sl), len(jn), sigma)
